@@ -263,6 +263,10 @@ package tendermint
 //@   assigns heightFresh, calls_AddProposal, arg_AddProposal_proposal
 //@   ensures wal_first: result != nil ==> len(result) >= 1 && istype(result[0], *actions.WriteWAL)
 //@   ensures once: old(s.isHeightStarted) ==> result == nil
+// The start entry is a copy: it still names the height that was started when the driver logs it, also
+// when this very call ran through to the commit and moved the machine to the next height (defect F25,
+// fixed: the entry pointed into s.state).
+//@   ensures start_entry_holds_the_started_height: result != nil ==> istype(cast(result[0], *actions.WriteWAL).Entry, *wal.Start) && fresh(cast(cast(result[0], *actions.WriteWAL).Entry, *wal.Start)) && *cast(cast(result[0], *actions.WriteWAL).Entry, *wal.Start) == old(s.state.height)
 
 // ---- incoming messages are always recorded, also before the height is started --------------------
 // A message for the next height can arrive (and is written to the WAL by the driver) before
